@@ -497,6 +497,8 @@ def operator_value_lattice(ctx):
                         ("numpy.not_equal(v, w)", lambda: numpy.not_equal(v, w), lambda: v.not_equal(w)),
                     ]
                     scale = max(abs(x) for row in rows + rows2 for x in row)
+                    from harness.arrays import snapshot
+                    snap_v, snap_w = snapshot(v), snapshot(w)
                     for name, fo, fm in forms:
                         n_forms += 1
                         key = f"operator:{tag}{name}"
@@ -512,6 +514,10 @@ def operator_value_lattice(ctx):
                                 key = "awkward-matmul"
                             bad.append((desc, f"operator form raises {type(e).__name__}: {str(e)[:80]}; the method returns a value", key))
                             continue
+                        finally:
+                            if snapshot(v) != snap_v or snapshot(w) != snap_w:     # C16: no operator form may touch its operands
+                                bad.append((desc, "an operand's stored data changed (coordinates, dtype, shape, flags or fields)", f"operand-modified:{tag}{name}"))
+                                snap_v, snap_w = snapshot(v), snapshot(w)
                         tg, tw = type_of(got), type_of(want)
                         if tg != tw:
                             bad.append((desc, f"operator form returns {tg}, method returns {tw}", key))
